@@ -59,6 +59,9 @@ def cases(rng, tier, X):
     # universal traffic (every frame type / sender / path / service / boundary value, 1..3 interfaces): this check's predicate on it
     for k in range(60 if tier == 'quick' else 6000):
         out.append(('u%d' % k, F.universal(rng)))
+        if k % 2 == 0:
+            # the same kind of traffic with transmit refusals (the only platform fault this predicate is stated for) injected at random points
+            out.append(('uf%d' % k, F.with_faults(rng, F.universal(rng), malloc=False, getters=False)))
     return out
 
 
